@@ -7,6 +7,7 @@
 package main
 
 import (
+	simrt "github.com/tsuna/gohbase/verifsimrt"
 	"crypto/sha256"
 	"encoding/hex"
 	"encoding/json"
@@ -192,6 +193,9 @@ func main() {
 		seed := *from + uint64(i)**stride
 		curSeed.Store(seed)
 		fmt.Printf("RUN %d\n", seed)
+		if simrt.RaceBuild {
+			fmt.Fprintf(os.Stderr, "RUN %d\n", seed) // race reports go to stderr: attribute them to the seed
+		}
 		p := pr.Generate(seed, rng.New(rng.Derive(seed, 77)))
 		p.Free = *free
 		wantTrace := *keep || len(sum.Samples) < 2
